@@ -206,6 +206,16 @@ func matchIssues(actual []IssueRec, exp []MIssue) (missing []MIssue, spurious []
 			missing = append(missing, e)
 		}
 	}
+	stars := func(e MIssue) int {
+		n := 0
+		for _, f := range []string{e.Path, e.Code, e.Type} {
+			if f == "*" {
+				n++
+			}
+		}
+		return n
+	}
+	sort.SliceStable(wild, func(i, j int) bool { return stars(wild[i]) < stars(wild[j]) })
 	for _, e := range wild {
 		found := false
 		for i, a := range actual {
